@@ -45,11 +45,33 @@ struct jls_buf_s * jls_buf_alloc(void) {
 }
 void jls_buf_free(struct jls_buf_s * self) { (void) self; vg_buf_freed++; }
 int32_t jls_buf_realloc(struct jls_buf_s * self, size_t size) { return (size <= self->alloc_size) ? 0 : JLS_ERROR_NOT_ENOUGH_MEMORY; }
-int32_t jls_buf_rd_skip(struct jls_buf_s * self, size_t count) { (void) self; (void) count; return JLS_ERROR_EMPTY; }      /* definition chunks are not part of this unit */
-int32_t jls_buf_rd_u8(struct jls_buf_s * self, uint8_t * v) { (void) self; (void) v; return JLS_ERROR_EMPTY; }
-int32_t jls_buf_rd_u16(struct jls_buf_s * self, uint16_t * v) { (void) self; (void) v; return JLS_ERROR_EMPTY; }
-int32_t jls_buf_rd_u32(struct jls_buf_s * self, uint32_t * v) { (void) self; (void) v; return JLS_ERROR_EMPTY; }
-int32_t jls_buf_rd_str(struct jls_buf_s * self, const char ** v) { (void) self; (void) v; return JLS_ERROR_EMPTY; }
+/* definition chunks (variant VG_DEFS): the payload reader is a recording model: it checks that jls_copy asks for the fields in the order and
+ * with the widths of the published layout and hands out ghost field values */
+#ifndef VG_DEFS
+#define VG_DEFS 0
+#endif
+enum { VG_RD_SKIP = 1, VG_RD_U8, VG_RD_U16, VG_RD_U32, VG_RD_STR };
+static int vg_rd_n, vg_layout_bad; static uint8_t vg_def_tag;
+static const uint32_t * vg_field;    /* 16 arbitrary field values */ static const char vg_s0[] = "n", vg_s1[] = "u", vg_s2[] = "m", vg_s3[] = "v", vg_s4[] = "s";
+static const char * vg_strs[5] = { vg_s0, vg_s1, vg_s2, vg_s3, vg_s4 }; static int vg_str_n;
+static int vg_expect_kind(int n, size_t * skip) {
+    *skip = 0;
+    if (vg_def_tag == JLS_TAG_SOURCE_DEF) { if (n == 0) { *skip = 64; return VG_RD_SKIP; } return (n <= 5) ? VG_RD_STR : 0; }
+    if (n == 0) return VG_RD_U16; if (n == 1) return VG_RD_U8; if (n == 2) { *skip = 1; return VG_RD_SKIP; }
+    if (n >= 3 && n <= 10) return VG_RD_U32; if (n == 11) { *skip = 92; return VG_RD_SKIP; } if (n == 12 || n == 13) return VG_RD_STR;
+    return 0;
+}
+static int32_t vg_rd(int kind, size_t count) {
+    size_t skip; int want = vg_expect_kind(vg_rd_n, &skip);
+    if (!VG_DEFS) return JLS_ERROR_EMPTY;
+    if (want != kind || (kind == VG_RD_SKIP && skip != count)) { vg_layout_bad++; }
+    return 0;
+}
+int32_t jls_buf_rd_skip(struct jls_buf_s * self, size_t count) { (void) self; int32_t rc = vg_rd(VG_RD_SKIP, count); vg_rd_n++; return rc; }
+int32_t jls_buf_rd_u8(struct jls_buf_s * self, uint8_t * v) { (void) self; int32_t rc = vg_rd(VG_RD_U8, 0); if (!rc) { *v = (uint8_t) vg_field[vg_rd_n & 15]; } vg_rd_n++; return rc; }
+int32_t jls_buf_rd_u16(struct jls_buf_s * self, uint16_t * v) { (void) self; int32_t rc = vg_rd(VG_RD_U16, 0); if (!rc) { *v = (uint16_t) vg_field[vg_rd_n & 15]; } vg_rd_n++; return rc; }
+int32_t jls_buf_rd_u32(struct jls_buf_s * self, uint32_t * v) { (void) self; int32_t rc = vg_rd(VG_RD_U32, 0); if (!rc) { *v = vg_field[vg_rd_n & 15]; } vg_rd_n++; return rc; }
+int32_t jls_buf_rd_str(struct jls_buf_s * self, const char ** v) { (void) self; int32_t rc = vg_rd(VG_RD_STR, 0); if (!rc) { *v = vg_strs[vg_str_n % 5]; vg_str_n++; } vg_rd_n++; return rc; }
 const char * jls_error_code_name(int ec) { (void) ec; return "?"; }
 const char * jls_error_code_description(int ec) { (void) ec; return "?"; }
 
@@ -104,8 +126,17 @@ int32_t jls_raw_chunk_next(struct jls_raw_s * self) {
 static int32_t vg_wr_open_rc;
 int32_t jls_wr_open(struct jls_wr_s ** instance, const char * path) { (void) path; if (vg_wr_open_rc) return vg_wr_open_rc; *instance = (struct jls_wr_s *) &vg_dummy_wr; vg_wr_open++; return 0; }
 int32_t jls_wr_close(struct jls_wr_s * self) { (void) self; vg_wr_closed++; return 0; }
-int32_t jls_wr_source_def(struct jls_wr_s * self, const struct jls_source_def_s * s) { (void) self; (void) s; vg_record(1, 0, 0, 0, 0, 0, 0, 0, 0, NULL); return 0; }
-int32_t jls_wr_signal_def(struct jls_wr_s * self, const struct jls_signal_def_s * s) { (void) self; (void) s; vg_record(2, 0, 0, 0, 0, 0, 0, 0, 0, NULL); return 0; }
+static int vg_def_bad;
+int32_t jls_wr_source_def(struct jls_wr_s * self, const struct jls_source_def_s * s) {
+    (void) self; vg_record(1, s->source_id, 0, 0, 0, 0, 0, 0, 0, NULL);
+    if (s->name != vg_s0 || s->vendor != vg_s1 || s->model != vg_s2 || s->version != vg_s3 || s->serial_number != vg_s4) { vg_def_bad++; }
+    return 0; }
+int32_t jls_wr_signal_def(struct jls_wr_s * self, const struct jls_signal_def_s * s) {
+    (void) self; vg_record(2, s->signal_id, 0, 0, 0, 0, 0, 0, 0, NULL);
+    if (s->source_id != (uint16_t) vg_field[0] || s->signal_type != (uint8_t) vg_field[1] || s->data_type != vg_field[3] || s->sample_rate != vg_field[4]
+        || s->samples_per_data != vg_field[5] || s->sample_decimate_factor != vg_field[6] || s->entries_per_summary != vg_field[7] || s->summary_decimate_factor != vg_field[8]
+        || s->annotation_decimate_factor != vg_field[9] || s->utc_decimate_factor != vg_field[10] || s->name != vg_s0 || s->units != vg_s1) { vg_def_bad++; }
+    return 0; }
 int32_t jls_wr_fsr(struct jls_wr_s * self, uint16_t signal_id, int64_t sample_id, const void * data, uint32_t data_length) {
     (void) self; vg_record(3, signal_id, sample_id, 0, data_length, 0, 0, 0, 0, data); return nondet_bool() ? JLS_ERROR_IO : 0; }
 int32_t jls_wr_annotation(struct jls_wr_s * self, uint16_t signal_id, int64_t timestamp, float y, enum jls_annotation_type_e at, uint8_t group_id,
@@ -121,7 +152,11 @@ void h_copy(void) {
     int64_t pos = 64;
     for (int i = 0; i < VG_K; ++i) {
         uint8_t tag = nondet_u8();
-        __CPROVER_assume(tag != JLS_TAG_SOURCE_DEF && tag != JLS_TAG_SIGNAL_DEF);      /* definitions: variant unit */
+#if VG_DEFS
+        __CPROVER_assume(tag == JLS_TAG_SOURCE_DEF || tag == JLS_TAG_SIGNAL_DEF); vg_def_tag = tag;     /* the definition variant: one definition chunk */
+#else
+        __CPROVER_assume(tag != JLS_TAG_SOURCE_DEF && tag != JLS_TAG_SIGNAL_DEF);      /* definitions: variant unit B-copy-defs */
+#endif
         vg_ch[i].tag = tag; vg_ch[i].meta = nondet_u16(); vg_ch[i].len = nondet_u32(); __CPROVER_assume(vg_ch[i].len <= VG_PAY);
         vg_ch[i].hdr_bad = VG_DAMAGED ? nondet_bool() : 0; vg_ch[i].pay_bad = VG_DAMAGED ? nondet_bool() : 0;    /* C17 speaks about readable sources */
         struct vg_payload p; vg_ch[i].pay = p;       /* arbitrary contents */
@@ -134,6 +169,8 @@ void h_copy(void) {
     vg_wr_open_rc = nondet_bool() ? JLS_ERROR_IO : 0;
     vg_rd_open = 0; vg_rd_closed = 0; vg_wr_open = 0; vg_wr_closed = 0; vg_buf_freed = 0; vg_calls = 0; vg_call_chunk_order_bad = 0; vg_last_chunk = -1; vg_cur = -1;
     for (int i = 0; i < VG_K; ++i) { vg_fw[i].kind = 0; }
+    vg_rd_n = 0; vg_layout_bad = 0; vg_str_n = 0; vg_def_bad = 0;
+    uint32_t fields[16]; vg_field = fields;      /* uninitialised: arbitrary */
     int32_t rc = jls_copy("src", "dst", NULL, NULL, NULL, NULL);
     _Bool src_ok = (vg_open_rc == 0 || vg_open_rc == JLS_ERROR_TRUNCATED);
     _Bool all_readable = 1;
@@ -152,6 +189,15 @@ void h_copy(void) {
         uint8_t tag = vg_ch[w].tag; uint16_t meta = vg_ch[w].meta;
         if (!readable) {
             __CPROVER_assert(vg_fw[w].kind == 0, "C04/C17: nothing is forwarded from an unreadable chunk");
+        } else if (tag == JLS_TAG_SOURCE_DEF || tag == JLS_TAG_SIGNAL_DEF) {
+            __CPROVER_assert(vg_layout_bad == 0, "C13/C05: jls_copy reads a definition payload field by field in the published order and widths");
+            __CPROVER_assert(vg_rd_n == (tag == JLS_TAG_SOURCE_DEF ? 6 : 14), "C13: every field of the definition is read");
+            if (meta != 0) {
+                __CPROVER_assert(vg_fw[w].kind == (tag == JLS_TAG_SOURCE_DEF ? 1 : 2) && vg_fw[w].id == meta && vg_def_bad == 0,
+                                 "C17: a definition is re-issued with its id, every numeric field and every string as stored");
+            } else {
+                __CPROVER_assert(vg_fw[w].kind == 0, "C17: the reserved source 0 / signal 0 are not re-issued (the writer creates them)");
+            }
         } else if (tag == JLS_TAG_TRACK_FSR_DATA) {
             const struct jls_fsr_data_s * d = (const struct jls_fsr_data_s *) pb;
             __CPROVER_assert(vg_fw[w].kind == 3 && vg_fw[w].id == (meta & 0x0fff) && vg_fw[w].t1 == d->header.timestamp && vg_fw[w].n == d->header.entry_count,
@@ -184,6 +230,11 @@ void h_copy(void) {
         __CPROVER_assert(rc == 0, "C17: a readable closed file without data chunks is copied successfully");
     }
     VG_REACH(copy_returns);
+#if VG_K >= 2
     if (rc == 0 && vg_calls == 2) { VG_REACH(copy_two_forwards); }
+#endif
+#if VG_DEFS
+    if (rc == 0 && vg_calls == 1 && vg_def_tag == JLS_TAG_SIGNAL_DEF) { VG_REACH(copy_signal_def_forwarded); }
+#endif
     if (rc == 0 && vg_open_rc == JLS_ERROR_TRUNCATED) { VG_REACH(copy_unclosed_original); }
 }
